@@ -75,7 +75,7 @@ func main() {
 		accessMain(os.Args[2], os.Args[3], js)
 		return
 	}
-	if len(os.Args) != 4 || os.Args[1] != "consts" {
+	if (len(os.Args) != 4 && len(os.Args) != 5) || os.Args[1] != "consts" {
 		die(fmt.Errorf("usage: extract consts <repo> <out.lean> | extract access <repo> <out.lean> [out.json]"))
 	}
 	repo, out := os.Args[2], os.Args[3]
@@ -178,6 +178,9 @@ func main() {
 		}
 	}
 	sort.Slice(defs, func(i, j int) bool { return defs[i].name < defs[j].name })
+	if len(os.Args) == 5 {
+		defs = append(defs, renameAliases(defs, os.Args[4])...)
+	}
 	var b strings.Builder
 	b.WriteString("/-! GENERATED by /verif/extract from the sources of the repository under test. Do not edit. -/\nnamespace NeoFS.Generated\n\n")
 	for _, d := range defs {
